@@ -69,7 +69,93 @@ type Engine struct {
 	recBuilding map[*ssa.Function]*recInfo
 	epochTime   map[int]string
 	curInstr    ssa.Instruction
+	altForm     map[string]string // universally quantified formula -> equivalent conjunction with index-shifted variants
+	altOnly     map[string][]string
 }
+
+// enrich rewrites universally quantified formulas that have an index-shifted variant into the
+// (equivalent) conjunction of both, but only at positions where the formula acts as a
+// hypothesis: positive positions when `s` is assumed (positive=true), negative positions when
+// `s` is a goal to be refuted (positive=false).
+func (e *Engine) enrich(s string, positive bool) string {
+	if len(e.altForm) == 0 || !strings.Contains(s, "(forall ") {
+		return s
+	}
+	hit := false
+	for k := range e.altForm {
+		if strings.Contains(s, k) {
+			hit = true
+			break
+		}
+	}
+	if !hit {
+		return s
+	}
+	tree := parseSx(s)
+	if tree == nil {
+		return s
+	}
+	pol := 1
+	if !positive {
+		pol = -1
+	}
+	return e.enrichSx(tree, pol).String()
+}
+
+// enrichSx: pol = 1 hypothesis position, -1 goal position, 0 both (under =, ite conditions).
+func (e *Engine) enrichSx(n *sx, pol int) *sx {
+	if !n.isL || len(n.list) == 0 {
+		return n
+	}
+	mapAll := func(from int, p int) *sx {
+		out := &sx{isL: true, list: append([]*sx{}, n.list[:from]...)}
+		for _, c := range n.list[from:] {
+			out.list = append(out.list, e.enrichSx(c, p))
+		}
+		return out
+	}
+	switch n.head() {
+	case "not":
+		return mapAll(1, -pol)
+	case "=>":
+		out := &sx{isL: true, list: []*sx{n.list[0]}}
+		for i, c := range n.list[1:] {
+			if i == len(n.list)-2 {
+				out.list = append(out.list, e.enrichSx(c, pol))
+			} else {
+				out.list = append(out.list, e.enrichSx(c, -pol))
+			}
+		}
+		return out
+	case "and", "or":
+		return mapAll(1, pol)
+	case "ite":
+		if len(n.list) == 4 {
+			return &sx{isL: true, list: []*sx{n.list[0], e.enrichSx(n.list[1], 0), e.enrichSx(n.list[2], pol), e.enrichSx(n.list[3], pol)}}
+		}
+	case "=", "distinct", "xor":
+		return mapAll(1, 0)
+	case "forall":
+		if pol >= 0 {
+			if alt, ok := e.altForm[n.String()]; ok {
+				return &sx{atom: alt}
+			}
+		}
+		if len(n.list) == 3 {
+			return &sx{isL: true, list: []*sx{n.list[0], n.list[1], e.enrichSx(n.list[2], pol)}}
+		}
+	case "exists":
+		if len(n.list) == 3 {
+			return &sx{isL: true, list: []*sx{n.list[0], n.list[1], e.enrichSx(n.list[2], pol)}}
+		}
+	case "!":
+		if len(n.list) >= 2 {
+			return &sx{isL: true, list: append([]*sx{n.list[0], e.enrichSx(n.list[1], pol)}, n.list[2:]...)}
+		}
+	}
+	return n
+}
+
 
 // recInfo describes the SMT definition of a recursive spec function.
 type recInfo struct {
@@ -148,7 +234,7 @@ func NewEngine(p *Program) *Engine {
 		fldKinds: map[string]int{}, instCount: map[string]int{}, Assumptions: map[string]bool{},
 		globalConst: map[*ssa.Global]T{}, immutable: map[*ssa.Global]int{},
 		allocIndex: map[*ssa.Function]map[string]*ssa.Alloc{}, loopCache: map[*ssa.Function]*loopInfo{}, uninterp: map[string]bool{},
-		recInfo: map[*ssa.Function]*recInfo{}, recBuilding: map[*ssa.Function]*recInfo{},
+		recInfo: map[*ssa.Function]*recInfo{}, recBuilding: map[*ssa.Function]*recInfo{}, altForm: map[string]string{}, altOnly: map[string][]string{},
 		MaxInline: 14,
 	}
 	e.lines = append(e.lines, smtPrelude)
@@ -218,6 +304,9 @@ func (e *Engine) name(t T, hint string) T {
 	if e.inlineTerms > 0 || len(t.S) < 24 {
 		return t
 	}
+	if t.Sort == sBool && (strings.Contains(t.S, "(forall ") || strings.Contains(t.S, "(exists ")) {
+		return t // quantified formulas stay visible (polarity-aware enrichment, triggers)
+	}
 	n := e.freshName(hint)
 	if t.Sort == sBool {
 		// boolean names stay macros: they are path conditions, never trigger material
@@ -245,7 +334,7 @@ func (e *Engine) assume(st *State, fact T) {
 	if e.inlineTerms > 0 {
 		return // facts about bound variables cannot be asserted globally
 	}
-	e.emit(fmt.Sprintf("(assert %s)", tImp(st.pc, fact).S))
+	e.emit(fmt.Sprintf("(assert %s)", e.enrich(tImp(st.pc, fact).S, true)))
 }
 
 func (e *Engine) note(format string, args ...interface{}) {
@@ -267,14 +356,14 @@ func (e *Engine) oblige(st *State, kind, label string, goal T, pos token.Pos) {
 		fn = funcDisplayName(e.top)
 	}
 	name := fmt.Sprintf("%s#%s:%s", fn, kind, label)
-	o := &Obligation{Name: name, Kind: kind, Func: fn, PC: st.pc.S, Goal: goal.S, At: len(e.lines), Instance: e.instCount[name]}
+	o := &Obligation{Name: name, Kind: kind, Func: fn, PC: st.pc.S, Goal: e.enrich(goal.S, false), At: len(e.lines), Instance: e.instCount[name]}
 	if pos.IsValid() {
 		o.Pos = e.P.Fset.Position(pos)
 	}
 	e.instCount[name]++
 	e.Obls = append(e.Obls, o)
 	// assert-then-assume
-	e.emit(fmt.Sprintf("(assert %s)", tImp(st.pc, goal).S))
+	e.emit(fmt.Sprintf("(assert %s)", e.enrich(tImp(st.pc, goal).S, true)))
 }
 
 func funcDisplayName(f *ssa.Function) string {
